@@ -193,6 +193,11 @@ class Program:
             for m in d["mir"]:
                 m["unit"] = unit
                 self.mir.setdefault(unit, []).append(m)
+        # helper normal form: functions that are not on the pinned list are inlined into their callers
+        from .alias import apply_aliases
+        from .inline import inline_program
+        apply_aliases(self)
+        inline_program(self)
 
     def fn(self, path, unit=None):
         """Function by normalised def-path; None when absent."""
@@ -209,7 +214,7 @@ class Program:
         for (unit, path), f in sorted(self.fns.items()):
             # kmertools lib and bin both contain args.rs; keep one of each path+file
             k = (path, f["sp"])
-            if k in seen:
+            if k in seen or path in getattr(self, "absorbed", ()):
                 continue
             seen.add(k)
             yield f
@@ -347,6 +352,10 @@ def normalise_tree(n):
                     "cond": {"k": "letexpr", "ty": "bool", "sp": main["pat"].get("sp", n.get("sp")),
                              "pat": main["pat"], "init": n["e"]},
                     "then": main["body"], "else": other["body"]}
+    if k == "if" and isinstance(n.get("cond"), dict) and n["cond"].get("k") == "letexpr":
+        r = _case_of_case(n)
+        if r is not None:
+            return r
     if k == "block":
         stmts = n.get("stmts", [])
         for i, st in enumerate(stmts):
@@ -361,6 +370,64 @@ def normalise_tree(n):
                 break
     return n
 
+
+
+def _ctor_of(e):
+    """(ctor path, [arg nodes]) when e is a constructor application `Some(v)` / `None` / `Ok(v)`, else None"""
+    while isinstance(e, dict) and e.get("k") == "block" and not e.get("stmts") and e.get("expr") is not None:
+        e = e["expr"]
+    if not isinstance(e, dict):
+        return None
+    if e.get("k") == "def" and str(e.get("dk", "")).startswith("Ctor"):
+        return norm_path(e.get("path", "")), []
+    if e.get("k") == "call" and str(e.get("cdk", "")).startswith("Ctor"):
+        return norm_path(e.get("callee", "")), list(e.get("args", []))
+    return None
+
+
+def _case_of_case(n):
+    """`if let P = <init> { T } else { E }` where <init> is not an opaque value but
+         a block with statements       -> the statements run first;
+         `if c { A } else { B }`       -> `if c { if let P = A {T} else {E} } else { if let P = B {T} else {E} }`;
+         a constructor application     -> decided statically (same constructor: bind the sub-patterns, otherwise E).
+    Arises when a helper returning Option/Result was expanded at its call site."""
+    import copy
+    cond = n["cond"]
+    pat, init = cond["pat"], cond["init"]
+    if not isinstance(init, dict):
+        return None
+    T, E = n["then"], n.get("else")
+    k = init.get("k")
+    if k == "block" and init.get("stmts") and not init.get("label"):
+        inner = dict(n)
+        inner["cond"] = dict(cond, init=init.get("expr"))
+        if init.get("expr") is None:
+            return None
+        return normalise_tree({"k": "block", "ty": n.get("ty"), "sp": n.get("sp"), "stmts": init["stmts"], "expr": inner,
+                               "hoisted": True})
+    if k == "block" and not init.get("stmts") and init.get("expr") is not None and not init.get("label"):
+        inner = dict(n)
+        inner["cond"] = dict(cond, init=init["expr"])
+        return normalise_tree(inner)
+    if k == "if" and init.get("else") is not None:
+        a = dict(n)
+        a["cond"] = dict(cond, init=init["then"])
+        b = copy.deepcopy(dict(n))
+        b["cond"] = dict(b["cond"], init=init["else"])
+        return {"k": "if", "ty": n.get("ty"), "sp": init.get("sp"), "cond": init["cond"],
+                "then": normalise_tree(a), "else": normalise_tree(b), "case_of_case": True}
+    c = _ctor_of(init)
+    if c is not None and pat.get("k") in ("ptstruct", "ppath"):
+        cp, cargs = c
+        pp = norm_path(pat.get("path", ""))
+        if pp.split("::")[-1] != cp.split("::")[-1]:
+            return E if E is not None else {"k": "block", "stmts": [], "expr": None, "ty": "()", "sp": n.get("sp")}
+        ps = pat.get("ps", []) or []
+        if len(ps) != len(cargs):
+            return None
+        lets = [{"k": "let", "pat": p_, "init": a_, "sp": p_.get("sp", n.get("sp"))} for p_, a_ in zip(ps, cargs)]
+        return {"k": "block", "ty": n.get("ty"), "sp": n.get("sp"), "stmts": lets, "expr": T, "known_ctor": True}
+    return None
 
 
 def _same_place(a, b):
